@@ -54,7 +54,9 @@ CHECKS = {
         "attributed to C07) and on policy call sequences (projection: admissions, invocations, records). Two known findings "
         "(records issued by a call that is not the probe) are kept with _refuted theorems and replayed on every run. Interleavings of concurrent calls: "
         "C07_single_probe_interleaved (all Admit/Settle histories excluding exactly those two kinds of record) is a theorem about "
-        "the model; interleaved coroutines are not exercised by the correspondence (calls are sequential there).",
+        "the model; interleaved AsyncPolicy coroutines on one breaker are driven against it as well (InterleaveCorr.icase_ok: decisions, "
+        "events and breaker state after every API call of the interleaved history; the single-probe oracle on histories in the "
+        "theorem's scope).",
         "Trusted: as C06; policy-level part additionally trusts the scripted-world harness and hand-driven coroutines.",
         "DESIGN.md §5 C07",
     ),
